@@ -305,7 +305,7 @@ static bool model_step_inner(Model &m, Op &op) {
         if (f.open) return skip();
         for (auto &o : m.files) if (o.open && o.path == op.name) return skip();
         auto it = m.disk.find(op.name); if (it == m.disk.end()) return skip();
-        f = it->second; f.open = true; f.mode = FM_COLL; f.readonly = (op.a[0] == 0); f.fresh = false; f.in_redef = false; f.saved.reset(); f.fill = false; /* the dataset fill mode is not stored in the file */
+        f = it->second; f.open = true; f.mode = FM_COLL; f.readonly = (op.a[0] == 0); f.fresh = false; f.first_layout = false; f.in_redef = false; f.saved.reset(); f.fill = false; /* the dataset fill mode is not stored in the file */
         f.ranks.assign(m.nprocs, MRank()); sync_numrecs(f); mark_synced(f);
         for (auto &v : f.vars) { v.fresh = false; v.fill_known = false; for (auto &c : v.cells) c.wmask = 0; }
         auto h = op.hints.find("nc_burst_buf"); f.bb = (h != op.hints.end() && h->second == "enable");
@@ -374,7 +374,7 @@ static bool model_step_inner(Model &m, Op &op) {
         f.saved = std::make_shared<MFile>(f); f.saved->saved.reset(); f.saved->mode = FM_COLL;
         f.mode = FM_DEFINE; f.in_redef = true; return true;
     }
-    case OP_ENDDEF: case OP_ENDDEF2: if (op.a[4] == 1 && f.open && f.mode != FM_DEFINE && op.kind == OP_ENDDEF) { op.exp_rc = NC_ENOTINDEFINE; return true; } if (!f.open || f.mode != FM_DEFINE) return skip(); do_enddef(f); m.snap_state[op.file] = 0; return true;
+    case OP_ENDDEF: case OP_ENDDEF2: if (op.a[4] == 1 && f.open && f.mode != FM_DEFINE && op.kind == OP_ENDDEF) { op.exp_rc = NC_ENOTINDEFINE; return true; } if (!f.open || f.mode != FM_DEFINE) return skip(); { bool wf = f.fresh; do_enddef(f); f.first_layout = wf; for (int k = 0; k < 4; k++) f.ed[k] = (op.kind == OP_ENDDEF2) ? op.a[k] : 0; } m.snap_state[op.file] = 0; return true;
     // collective and independent accesses go through different MPI file handles (and, with aggregation, through other ranks): data written
     // before a mode switch is only ordered with accesses after it by the documented sync-barrier-sync, even on the writing rank itself
     case OP_BEGIN_INDEP: if (op.a[4] == 1 && f.open && f.mode == FM_DEFINE) { op.exp_rc = NC_EINDEFINE; return true; } if (op.a[4] == 1 && f.open && f.mode == FM_INDEP) { op.exp_rc = NC_NOERR; return true; } if (!f.open || f.mode != FM_COLL) return skip(); f.mode = FM_INDEP; for (auto &v : f.vars) for (auto &c : v.cells) if (c.wmask) c.wmask = 0xff; return true;
@@ -412,7 +412,7 @@ static bool model_step_inner(Model &m, Op &op) {
         if (!v.fresh) return skip();   // changing the fill mode of an existing variable has no retroactive meaning: stay inside the documented fragment
         v.no_fill = op.a[0] != 0;
         if (!v.no_fill && op.a[1]) {
-            long long fv = 1 + (op.a[2] % type_maxval(v.type) + type_maxval(v.type)) % type_maxval(v.type);
+            long long fv = 1 + ((op.a[2] - 1) % type_maxval(v.type) + type_maxval(v.type)) % type_maxval(v.type);   // idempotent
             v.has_fillv = true; v.fillv = fv; op.a[2] = fv;
             MAtt *a = find_att(v.atts, "_FillValue"); if (!a) { v.atts.push_back(MAtt()); a = &v.atts.back(); a->name = "_FillValue"; }
             a->type = v.type; a->v = {fv};
@@ -441,7 +441,7 @@ static bool model_step_inner(Model &m, Op &op) {
             if (f.mode == FM_INDEP) return skip();
         }
         long long mx = type_maxval(op.att.type);
-        for (auto &x : op.att.v) x = 1 + ((x % mx) + mx) % mx;
+        for (auto &x : op.att.v) x = 1 + (((x - 1) % mx) + mx) % mx;   // into [1, mx]; idempotent (programs are re-annotated on replay / by C10)
         if (!a) { l->push_back(MAtt()); a = &l->back(); a->name = op.name; }
         a->type = op.att.type; a->v = op.att.v; return true;
     }
@@ -542,7 +542,7 @@ static bool model_step_inner(Model &m, Op &op) {
                 long long mx = std::min(type_maxval(v.type), mem_maxval(a.memtype));
                 a.values.resize(a.elems.size());
                 if (v.dimids.empty()) { mx = type_maxval(v.type); for (int q = 0; q < m.nprocs; q++) if (op.acc[q].active) mx = std::min(mx, mem_maxval(op.acc[q].memtype)); }
-                for (size_t k = 0; k < a.elems.size(); k++) a.values[k] = value_for(opidx, v.dimids.empty() ? 0 : r, (long long)k, mx);
+                for (size_t k = 0; k < a.elems.size(); k++) a.values[k] = value_for(opidx, v.dimids.empty() ? 0 : (a.vrank >= 0 ? a.vrank : r), (long long)k, mx);
                 long long maxrec = 0;
                 apply_put(f, v, r, a, opidx, op.coll, maxrec);
                 invalidate_racing_reads(m, op.file, vi, r, a.elems);
@@ -582,7 +582,7 @@ static bool model_step_inner(Model &m, Op &op) {
                 if (kind == K_BPUT && rk.abuf_size - rk.abuf_used < nbytes) rc = NC_EINSUFFBUF;
                 if (rc == NC_NOERR && a.elems.empty()) { /* a zero-length request is not queued: the id returned is NC_REQ_NULL */ }
                 else if (rc == NC_NOERR) {
-                    if (!is_read) { long long mx = std::min(type_maxval(v.type), mem_maxval(a.memtype)); a.values.resize(a.elems.size()); for (size_t k = 0; k < a.elems.size(); k++) a.values[k] = value_for(opidx, r, (long long)k, mx); }
+                    if (!is_read) { long long mx = std::min(type_maxval(v.type), mem_maxval(a.memtype)); a.values.resize(a.elems.size()); for (size_t k = 0; k < a.elems.size(); k++) a.values[k] = value_for(opidx, a.vrank >= 0 ? a.vrank : r, (long long)k, mx); }
                     else { a.memtype = native_memtype(v.type); }   // values are only known at completion time: read without conversion
                     MReq q; q.live = true; q.kind = kind; q.var = vi; q.acc = a; q.opidx = opidx; q.nbytes = nbytes; q.abuf_bytes = kind == K_BPUT ? nbytes : 0;
                     if (kind == K_BPUT) rk.abuf_used += nbytes;
